@@ -1360,6 +1360,10 @@ class LangServer:
                 # Forget the file itself, otherwise it keeps answering
                 # documentSymbol and appears in references/rename results
                 self.workspace.pop(filepath, None)
+                # Re-resolve links/inheritance that pointed into the removed file
+                self.link_version = (self.link_version + 1) % 1000
+                for _, tmp_file in self.workspace.items():
+                    tmp_file.ast.resolve_links(self.obj_tree, self.link_version)
             return
         did_change, err_str = self.update_workspace_file(
             filepath, read_file=True, allow_empty=did_open
